@@ -2,6 +2,7 @@
 import io
 import itertools
 import os
+import warnings
 import shutil
 from fractions import Fraction
 
@@ -20,7 +21,10 @@ RULE = ('(a) round trips: random dtype (incl. structured, big-endian, bool, comp
         'S3ChunkStore (loopback endpoint); (b) pruned reads get_dask_array(index=unit-step slices incl. None/negative/'
         'empty) with recorded get_chunk requests; (c) random put/get/mark_complete/is_complete sequences; (d) '
         'chunk_metadata / chunk_id_str on random slices (negative, > width, non-unit steps, wrong shapes, object dtypes); '
-        '(e) generate_chunks on random and (thorough) all shapes <= (6,6,4) x budgets 1..64 x flags; (f) bucket-name '
+        '(e) generate_chunks through its public arguments: random shapes / budgets, dims_to_split None or axes in any order '
+        'each spelled from the front or the back (negative), repeated axes, entries naming no axis, max_dim_elements keys '
+        'spelled either way incl. two spellings of one axis with different limits and keys naming no axis, a malformed '
+        'stream with limits <= 0, and (thorough) all shapes <= (6,6,4) x budgets 1..64 x 168 flag sets; (f) bucket-name '
         'normalisation on random paths; (g) chunks handed to put_chunk / put_dask_array in 9 memory layouts (C, Fortran, '
         'transposed / strided / negative-stride / interior / axis-rotated views, unaligned, read-only; blocks of transposed '
         'dask arrays) on all back-ends incl. direct_write, with the stored .npy objects (header fortran_order/shape/dtype and '
@@ -597,6 +601,36 @@ def run_names(ctx, n):
 # ---------------------------------------------------------------------------------------------------
 # (e) generate_chunks
 
+def gc_norm(nd, i):
+    """NumPy reading of an axis number: position or None."""
+    if 0 <= i < nd:
+        return i
+    if -nd <= i < 0:
+        return i + nd
+    return None
+
+
+def gc_args(c):
+    """(M, dims as given or the default, limits as given) of a case."""
+    mcs = Fraction(c['mcs'][0], c['mcs'][1])
+    M = mcs / c['itemsize']
+    nd = len(c['shape'])
+    dims = list(range(nd)) if c['dims'] is None else list(c['dims'])
+    mde = [] if c['mde'] is None else [list(kv) for kv in c['mde']]
+    return M, dims, mde
+
+
+def gc_limits(nd, dims, mde):
+    """axis -> strictest limit among the keys naming it, for nominated axes only (the spec's reading)."""
+    nominated = [gc_norm(nd, i) for i in dims]
+    lim = {}
+    for k, v in mde:
+        a = gc_norm(nd, k)
+        if a is not None and a in nominated:
+            lim[a] = min(v, lim.get(a, v))
+    return [a for a in nominated if a is not None], lim
+
+
 def gc_robust(shape, M, dims, pow2, mde):
     """True when every float64 decision of generate_chunks provably equals the exact-arithmetic decision."""
     def dyadic(q):
@@ -604,14 +638,19 @@ def gc_robust(shape, M, dims, pow2, mde):
         return d & (d - 1) == 0
     if not dyadic(M):
         return False
+    nd = len(shape)
+    axes, lim = gc_limits(nd, dims, mde)
     de = list(shape)
-    for i in dims:
-        if i in mde and mde[i] < shape[i]:
-            de[i] = 2 ** (mde[i].bit_length() - 1) if pow2 else mde[i]
+    for i in axes:
+        if i in lim and lim[i] < shape[i]:
+            de[i] = 2 ** (lim[i].bit_length() - 1) if pow2 else lim[i]
     for d in dims:
         cur = int(np.prod(de, dtype=object))
         if cur <= M:
             break
+        d = gc_norm(nd, d)
+        if d is None:
+            break           # IndexError in both
         x = Fraction(de[d]) * M / cur
         if x < 1:
             t = 1
@@ -631,13 +670,15 @@ def gc_case(ctx, c, mo, quiet=False):
     shape, dims, pow2, mde = c['shape'], c['dims'], c['pow2'], c['mde']
     kw = {}
     if dims is not None:
-        kw['dims_to_split'] = dims
+        kw['dims_to_split'] = tuple(dims) if c.get('dims_tuple', True) else list(dims)
     if mde is not None:
         kw['max_dim_elements'] = {int(k): v for k, v in mde}
     mcs = Fraction(c['mcs'][0], c['mcs'][1])
     arg = mcs.numerator if mcs.denominator == 1 else float(mcs)
     try:
-        out = generate_chunks(tuple(shape), np.dtype('V%d' % c['itemsize']), arg, power_of_two=pow2, **kw)
+        with warnings.catch_warnings():
+            warnings.simplefilter('ignore')
+            out = generate_chunks(tuple(shape), np.dtype('V%d' % c['itemsize']), arg, power_of_two=pow2, **kw)
         out = [list(map(int, x)) for x in out]
     except Exception as e:
         out = e
@@ -645,44 +686,90 @@ def gc_case(ctx, c, mo, quiet=False):
 
 
 def gc_wire(c, out):
-    mcs = Fraction(c['mcs'][0], c['mcs'][1])
-    M = mcs / c['itemsize']
-    dims = list(range(len(c['shape']))) if c['dims'] is None else c['dims']
-    mde = [] if c['mde'] is None else [list(kv) for kv in c['mde']]
-    return [7, [4, c['shape'], M.numerator, M.denominator, dims, c['pow2'], mde, out]], M, dims, dict((k, v) for k, v in mde)
+    M, dims, mde = gc_args(c)
+    return [73, [c['shape'], M.numerator, M.denominator, [] if c['dims'] is None else [list(c['dims'])], c['pow2'],
+                 [] if c['mde'] is None else [[list(kv) for kv in c['mde']]], out]], M, dims, mde
+
+
+def gc_flags(c, dims, mde, detail=False):
+    """Shape class of the arguments: how the axes are spelled in dims_to_split and in the keys of max_dim_elements."""
+    nd = len(c['shape'])
+    ax = []
+    if c['dims'] is None:
+        ax.append('all')
+    else:
+        if any(-nd <= i < 0 for i in dims):
+            ax.append('neg')
+        if any(gc_norm(nd, i) is None for i in dims):
+            ax.append('oor')
+        if detail and len(set(gc_norm(nd, i) for i in dims)) < len(dims):
+            ax.append('rep')
+    keys = []
+    if mde:
+        if any(-nd <= k < 0 for k, _ in mde) or (not detail and len(set(gc_norm(nd, k) for k, _ in mde)) < len(mde)):
+            keys.append('neg')
+        if detail and any(gc_norm(nd, k) is None for k, _ in mde):
+            keys.append('oor')
+        if detail and len(set(gc_norm(nd, k) for k, _ in mde)) < len(mde):
+            keys.append('alias')
+    return 'pow2=%d;caps=%s;dims=%s' % (c['pow2'], ('+'.join(keys) or '1') if mde else '0', '+'.join(ax) or 'subset')
 
 
 def gc_check(ctx, c, out, mo, M, dims, mde):
-    model, ok_impl, ok_model, dom = mo
-    flags = 'pow2=%d;caps=%d;dims=%s' % (c['pow2'], bool(mde), 'all' if c['dims'] is None else 'subset')
+    model, ok_impl, ok_model, dom, valid = mo
+    flags = gc_flags(c, dims, mde)
+    raised = isinstance(out, Exception)
+    ctx.traces_validated += 1
     if not dom:
+        # malformed arguments (a limit <= 0, ...): the property only demands "rejected, not answered wrongly"
+        ctx.count('gc_malformed')
+        if not raised and not ok_impl:
+            ctx.disagree('op=generate_chunks;limits=nonpositive;symptom=answered:%s' % gc_symptom(c, out, M, dims, mde), c, out,
+                         None, 'generate_chunks answers malformed arguments with a scheme that violates the chunking spec',
+                         spec='chunks_ok_py = false')
         return
-    if isinstance(out, Exception):
-        ctx.disagree('op=generate_chunks;%s;symptom=raised:%s' % (flags, type(out).__name__), c, repr(out)[:200], model,
-                     'generate_chunks raised on an in-domain input')
-        return
+    model_raises = model[0] != 0
+    mchunks = None if model_raises else model[1]
     if not ok_model:
-        ctx.disagree('op=generate_chunks;%s;symptom=model_not_ok' % flags, c, out, model, 'model output violates chunks_ok', kind='tie')
+        ctx.disagree('op=generate_chunks;%s;symptom=model_not_ok' % flags, c, repr(out)[:200], model, 'model output violates chunks_ok_py', kind='tie')
+    if raised:
+        if model_raises and isinstance(out, IndexError):
+            ctx.count('gc_index_error')
+            return
+        ctx.disagree('op=generate_chunks;%s;symptom=raised:%s' % (flags, type(out).__name__), c, repr(out)[:200], model,
+                     'generate_chunks raised on an in-domain input' if valid else
+                     'generate_chunks raised where the model returns (or raised something other than IndexError)',
+                     kind='property' if valid else 'tie')
+        return
     if not ok_impl:
         ctx.disagree('op=generate_chunks;%s;symptom=%s' % (flags, gc_symptom(c, out, M, dims, mde)), c, out, model,
-                     'chunking scheme violates tiling / size budget / power-of-two / per-dimension limits', spec='chunks_ok = false')
-    elif out != model and gc_robust(c['shape'], M, dims, c['pow2'], mde):
+                     'chunking scheme violates tiling / size budget / power-of-two / per-dimension limits (axis numbers read '
+                     'the NumPy way)', spec='chunks_ok_py = false')
+    elif model_raises:
+        ctx.disagree('op=generate_chunks;%s;symptom=returned_where_model_raises' % flags, c, out, model,
+                     'generate_chunks returned where the model of the source raises IndexError', kind='tie')
+    elif out != mchunks and gc_robust(c['shape'], M, dims, c['pow2'], mde):
         ctx.disagree('op=generate_chunks;%s;symptom=differs_from_model' % flags, c, out, model,
                      'chunking differs from the exact-arithmetic model of the algorithm', kind='tie')
-    ctx.traces_validated += 1
 
 
 def gc_symptom(c, out, M, dims, mde):
     shape = c['shape']
-    if len(out) != len(shape) or any(sum(o) != s or min(o) <= 0 for o, s in zip(out, shape)):
+    nd = len(shape)
+    if len(out) != nd or any(sum(o) != s or not o or min(o) <= 0 for o, s in zip(out, shape)):
         return 'not_tiling'
-    if any(i in mde and max(out[i]) > mde[i] for i in dims):
+    axes, lim = gc_limits(nd, dims, mde)
+    if any(max(out[i]) > lim[i] for i in lim):
         return 'dim_cap'
     if c['pow2'] and any(v & (v - 1) for o in out for v in o[:-1]):
         return 'not_pow2'
-    if any(len(o) > 1 for i, o in enumerate(out) if i not in dims):
+    if any(len(o) > 1 for i, o in enumerate(out) if i not in axes):
         return 'unsplit_dim_split'
     return 'budget'
+
+
+def gc_spell(rng, nd, i, p=0.35):
+    return i - nd if rng.random() < p else i
 
 
 def run_gen_chunks(ctx, n):
@@ -700,12 +787,30 @@ def run_gen_chunks(ctx, n):
             mcs = [rng.randint(1, 4 * max(2, total)), 4]
         else:
             mcs = [rng.choice([1, 10, 1000, 10 ** 6, 2 ** 40]), 1]
+        # dims_to_split: None, or axes in any order, each spelled from the front or from the back, now and then an
+        # axis twice (same or other spelling) and an entry that names no axis (mostly last, where it is often not reached)
         dims = None
-        if rng.random() < 0.5:
-            dims = rng.sample(range(nd), rng.randint(0, nd))
+        if rng.random() < 0.6:
+            dims = [gc_spell(rng, nd, i) for i in rng.sample(range(nd), rng.randint(0, nd))]
+            if dims and rng.random() < 0.15:
+                i = rng.choice(dims)
+                dims.insert(rng.randint(0, len(dims)), rng.choice([i, i + nd if i < 0 else i - nd]))
+            if rng.random() < 0.12:
+                bad = rng.choice([nd, nd + rng.randint(1, 20), -nd - 1, -nd - rng.randint(2, 20), 17])
+                dims.insert(len(dims) if rng.random() < 0.6 else rng.randint(0, len(dims)), bad)
+        # max_dim_elements: keys spelled either way, now and then both spellings of an axis with different limits,
+        # a key that names no axis; malformed stream: a limit <= 0
         mde = None
-        if rng.random() < 0.5:
-            mde = [[i, rng.choice([1, 2, 3, 4, 5, 8, 13, 100])] for i in rng.sample(range(nd), rng.randint(0, nd))]
+        if rng.random() < 0.55:
+            vals = [1, 2, 3, 4, 5, 8, 13, 100]
+            mde = [[gc_spell(rng, nd, i), rng.choice(vals)] for i in rng.sample(range(nd), rng.randint(0, nd))]
+            if mde and rng.random() < 0.15:
+                k = rng.choice(mde)[0]
+                mde.insert(rng.randint(0, len(mde)), [k + nd if k < 0 else k - nd, rng.choice(vals)])
+            if rng.random() < 0.08:
+                mde.insert(rng.randint(0, len(mde)), [rng.choice([nd, -nd - 1, 17, nd + 3]), rng.choice(vals)])
+            if mde and rng.random() < 0.04:
+                rng.choice(mde)[1] = rng.choice([0, -1, -3])
         cases.append(dict(shape=shape, itemsize=itemsize, mcs=mcs, dims=dims, pow2=rng.random() < 0.5, mde=mde))
     run_gc_batch(ctx, cases, sample=True)
 
@@ -720,14 +825,16 @@ def run_gc_batch(ctx, cases, sample=False):
         ctx.note_case(('gc', repr(c)), nontrivial=split, sample=dict(op='generate_chunks', out=None if isinstance(o, Exception) else o, **c) if sample else None)
         ctx.count('generate_chunks')
         ctx.count('gc_split=%s' % split)
+        if sample:
+            ctx.count('gc_' + gc_flags(c, w[2], w[3], detail=True).split(';', 1)[1])
 
 
 def run_gc_exhaustive(ctx):
     cases = []
     flagsets = []
     for pow2 in (False, True):
-        for dims in (None, [0], [1], [2], [0, 1], [1, 0], [2, 0], [1, 2], [2, 1, 0]):
-            for mde in (None, [[0, 2]], [[1, 3], [2, 1]], [[0, 5], [1, 2], [2, 3]]):
+        for dims in (None, [0], [1], [2], [0, 1], [1, 0], [2, 0], [1, 2], [2, 1, 0], [-1], [0, -1], [-3, 2], [-2, 1, 0], [1, 3]):
+            for mde in (None, [[0, 2]], [[1, 3], [2, 1]], [[0, 5], [1, 2], [2, 3]], [[-1, 2]], [[2, 3], [-1, 2], [-3, 4]]):
                 flagsets.append((pow2, dims, mde))
     for a in range(1, 7):
         for b in range(1, 7):
@@ -1299,6 +1406,8 @@ def run(ctx):
                 sample += [[7, [2, codes('x'), [[2, 1], [1, 2]], [3, 100000], [3, 100000], 0]],
                            [7, [3, codes('x'), [[2, 2, 2], [1, 1]], [[[1], [5]], [[], []]], 1]],
                            [7, [4, [10, 7], 13, 2, [0, 1], 0, [[0, 4]], [[3, 3, 3, 1], [2, 2, 2, 1]]]],
+                           [73, [[4, 6, 50], 6000, 4, [[-1, 2]], 0, [[[-1, 4], [2, 8]]], [[4], [6], [50]]]],
+                           [73, [[10, 7], 13, 2, [[0, 17]], 1, [[[0, 5]]], []]], [73, [[10, 7], 13, 2, [], 1, [], []]],
                            [7, [5, codes('/a_b/c_d/00000_00001.npy')]],
                            [71, [1, [2, 3], 1]], [71, [2, [2, 3, 2], 1]], [71, [2, [], 1]],
                            [72, [2, [[0, codes('x'), 7, 1, [[2, 2]], [0], 0], [0, codes('x'), 7, 2, [[2, 2]], [4], 4000],
